@@ -38,6 +38,7 @@ PURE_FOREIGN = [
     r'^std::cmp::PartialOrd::(lt|le|gt|ge|partial_cmp)$',
     r'^std::cmp::Ord::cmp$',           # on scalars / generic keys (the SweepEvent impl is a local body)
     r'^<f(32|64) as std::cmp::PartialOrd>::partial_cmp$',
+    r'^std::cmp::impls::<impl std::cmp::(PartialOrd|Ord|PartialEq) for \w+>::(partial_cmp|cmp|lt|le|gt|ge|eq|ne)$',
     r'^std::cmp::Ordering::(is_gt|is_lt|is_ge|is_le|is_eq|is_ne|reverse)$',
     r'^<geo_types::Coord<T> as std::cmp::PartialEq>::(eq|ne)$',
     r'^std::ops::(Add|Sub|Mul|Div|Neg)::(add|sub|mul|div|neg)$',
